@@ -98,6 +98,21 @@ func c13CheckTree(c *fw.Ctx, label string, root dst.Node, npred int) []dst.Node 
 		seq = append(seq, n)
 		return true
 	})
+	// a visitor that declines the root: exactly one call (with the root), nothing below it
+	declined := 0
+	var firstDeclined dst.Node
+	dst.Inspect(root, func(n dst.Node) bool {
+		if n != nil {
+			if declined == 0 {
+				firstDeclined = n
+			}
+			declined++
+		}
+		return false
+	})
+	if declined != 1 || firstDeclined != root {
+		c.Violate("pruning", "pruning:declined-root:"+refl.TypeName(root), fmt.Sprintf("%s: a visitor that returns false for the root was called with %d non-nil nodes (want 1, the root)", label, declined), "")
+	}
 	want := refl.DstPreorder(root)
 	canon := func(s []dst.Node) []dst.Node {
 		if !isPkg {
